@@ -129,7 +129,7 @@ func c16Run(c c16Case, o *hx.Obs) {
 	str := func(n string) *dm.Node { return &dm.Node{Kind: "leaf", Name: n, Type: &dm.Type{Base: "string"}} }
 	m := &dm.Module{Name: "gm"}
 	rows := len(c.Values)
-	if c.Placement != "list-when" && c.Placement != "where" && c.Placement != "filter" {
+	if c.Placement != "list-when" && c.Placement != "where" && c.Placement != "filter" && c.Placement != "list-when-where" {
 		rows = 1
 	}
 	if rows == 0 {
@@ -217,9 +217,9 @@ func c16Run(c c16Case, o *hx.Obs) {
 			delete(wc, "y")
 		}
 		want["c"] = wc
-	case "list-when", "where":
+	case "list-when", "where", "list-when-where":
 		l := &dm.Node{Kind: "list", Name: "l", Keys: []string{"k"}, Children: []*dm.Node{{Kind: "leaf", Name: "k", Type: &dm.Type{Base: "int32"}}, zLeaf(), str("other")}}
-		if c.Placement == "list-when" {
+		if c.Placement == "list-when" || c.Placement == "list-when-where" {
 			l.When = expr
 		}
 		m.Top = []*dm.Node{l, str("out")}
@@ -296,7 +296,7 @@ func c16Run(c c16Case, o *hx.Obs) {
 		}
 		return
 	}
-	if c.Edit && c.Placement != "where" {
+	if c.Edit && c.Placement != "where" && c.Placement != "list-when-where" {
 		// target already holds the operand(s); the upsert carries the guarded nodes
 		target := dm.Tree{}
 		switch c.Placement {
@@ -375,6 +375,14 @@ func c16Run(c c16Case, o *hx.Obs) {
 	var rerr error
 	if o.Guard("read", func() {
 		sel := node.NewBrowser(mm, dm.NewRS(modelRoot, dm.CloneTree(data))).Root()
+		if c.Placement == "list-when-where" {
+			// a where that holds for every row must not bring back rows their when hides
+			sel, rerr = sel.Find("l?where=" + url.QueryEscape("k>=0"))
+			if rerr != nil || sel == nil {
+				rerr = fmt.Errorf("Find: %v", rerr)
+				return
+			}
+		}
 		if c.Placement == "where" {
 			sel, rerr = sel.Find("l?where=" + url.QueryEscape(expr))
 			if rerr != nil || sel == nil {
@@ -408,6 +416,9 @@ func c16Run(c c16Case, o *hx.Obs) {
 		if c.Placement == "where" {
 			clause = "row"
 		}
+		if c.Placement == "list-when-where" {
+			clause = "row-when-where"
+		}
 		o.Failf(sig(clause), "%q with operand values %v (unset %v): read differs from the expected visibility:\n%s\n%s", expr, c.Values[:rows], c.Unset[:rows], joinMax(d, 4), text)
 	}
 }
@@ -421,7 +432,7 @@ func typeYang(ty *dm.Type) string {
 var c16Bases = []string{"int8", "int16", "int32", "int64", "uint8", "uint16", "uint32", "uint64", "decimal64", "string", "boolean", "enumeration"}
 
 func c16Gen(t *rapid.T) c16Case {
-	c := c16Case{Base: rapid.SampledFrom(c16Bases).Draw(t, "base"), Placement: rapid.SampledFrom([]string{"container-when", "leaf-when", "list-when", "uses-when", "augment-when", "where", "where", "filter"}).Draw(t, "placement"),
+	c := c16Case{Base: rapid.SampledFrom(c16Bases).Draw(t, "base"), Placement: rapid.SampledFrom([]string{"container-when", "leaf-when", "list-when", "list-when-where", "uses-when", "augment-when", "where", "where", "filter"}).Draw(t, "placement"),
 		Edit: rapid.IntRange(0, 3).Draw(t, "edit") == 0, Spaces: rapid.Bool().Draw(t, "spaces"), Quoted: rapid.IntRange(0, 3).Draw(t, "quoted") == 0}
 	ops := []string{"=", "!=", "<", "<=", ">", ">="}
 	if c.Base == "boolean" || c.Base == "string" {
@@ -471,7 +482,7 @@ func c16Gen(t *rapid.T) c16Case {
 
 var c16Pred = hx.Register(&hx.Check[c16Case]{
 	Name: "c16-predicates",
-	Rule: "'<leaf> <op> <literal>' over operand leaves of every integer width, decimal64, string, boolean and enumeration; operators = != < <= > >=; operand unset, equal to the literal, a neighbour of it, or random (64-bit and unsigned extremes included); placed as when on a container, leaf, list, uses and augment (checked on reads and on upserts) , as where= on a list and as filter= on a notification stream; oracle = math/big / string / name comparison, false when the operand has no value; non-trivial = operand within 1 of the literal, unset, or non-numeric",
+	Rule: "'<leaf> <op> <literal>' over operand leaves of every integer width, decimal64, string, boolean and enumeration; operators = != < <= > >=; operand unset, equal to the literal, a neighbour of it, or random (64-bit and unsigned extremes included); placed as when on a container, leaf, list (also read through a where= that holds for every row), uses and augment (checked on reads and on upserts), as where= on a list and as filter= on a notification stream; oracle = math/big / string / name comparison, false when the operand has no value; non-trivial = operand within 1 of the literal, unset, or non-numeric",
 	Gen:  c16Gen,
 	Run:  c16Run,
 })
